@@ -138,12 +138,14 @@ def flt_is_nan(bits: int, size: int) -> bool:
     return ex == (1 << e) - 1 and (bits & ((1 << m) - 1)) != 0
 
 
-def same_val(real, model) -> bool:
+def same_val(real, model, ignore_union_buf=False) -> bool:
     """compare a canonical real value with the model's value; a real NaN matches any model float"""
     if isinstance(real, list) and isinstance(model, list):
+        if ignore_union_buf and real and model and str(real[0]) == "union" and str(model[0]) == "union":
+            return len(real) == len(model) and all(same_val(a, b, True) for a, b in zip(real[2:], model[2:]))
         if len(real) == 2 and real[0] == "flt" and real[1] == "nan":
             return len(model) == 2 and model[0] == "flt"
-        return len(real) == len(model) and all(same_val(a, b) for a, b in zip(real, model))
+        return len(real) == len(model) and all(same_val(a, b, ignore_union_buf) for a, b in zip(real, model))
     if isinstance(real, (bytes, bytearray)):
         real = common.hx(bytes(real))
     if isinstance(model, (bytes, bytearray)):
